@@ -1,4 +1,5 @@
 import CoapVerif.Lemmas.Replay
+import CoapVerif.Lemmas.ReplayEndp
 import CoapVerif.Spec.Replay
 /-
 C15 — OSCORE never accepts a replay or reuses a nonce; forgeries leave no trace.
@@ -268,20 +269,16 @@ theorem accept_at_most_once_dgram (cfg : Cfg) (ds : List Dgram) : (acceptedD cfg
   rw [acceptedD_eq]
   exact accept_at_most_once cfg _
 
-/-! ### Which nonce a message is protected with (seed C15-12)
+/-! ### Which nonce a message is protected with (seed C15-12): step facts
 
-Not proved over histories (checked per line: the driver prints `S distinct`, the oracle of props/C15.py judges the
-implementation's own (key, nonce) pairs):
-  theorem nonce_never_reused (cfg) (ops : List NOp) (hb : cfg.b12 = false) (hl : ops.length < 2^63) :
-      (nonces (nrun cfg Endp.fresh ops)).Nodup
-Proved: the step facts it rests on — every notification, every response to an Observe request, every request takes
-the Sender Sequence Number (which then increases), and a request that fails authentication never changes the nonce a
-response is protected with. -/
+Every notification, every response to an Observe request, every request takes the Sender Sequence Number (which then
+increases), and a request that fails authentication never changes the nonce a response is protected with.  The history
+theorems are in the section "Nonces over whole histories" below. -/
 
 /-- the Partial IV taken from the Sender Sequence Number is the current one, and the counter moves on -/
-theorem ownPiv_fresh (s : Snd) (h : s.seq < 2 ^ 64 - 1) :
-    ((ownPiv s).2 = none ∨ (ownPiv s).2 = some s.seq) ∧ (ownPiv s).1.seq = s.seq + 1 := by
-  have h1 : (s.seq + 1) % 2 ^ 64 = s.seq + 1 := Nat.mod_eq_of_lt (by omega)
+theorem ownPiv_fresh (y : SSys) (h : y.s.seq < 2 ^ 64 - 1) :
+    ((ownPiv y).2 = none ∨ (ownPiv y).2 = some y.s.seq) ∧ (ownPiv y).1.s.seq = y.s.seq + 1 := by
+  have h1 : (y.s.seq + 1) % 2 ^ 64 = y.s.seq + 1 := Nat.mod_eq_of_lt (by omega)
   unfold ownPiv protect
   simp only [h1]
   repeat' split
@@ -292,15 +289,16 @@ theorem notification_fresh_piv (cfg : Cfg) (e : Endp) (t : Nat) (sendPiv : Bool)
     (nstep cfg e (.sendRsp t true sendPiv)).2 = .err ∨
     ((nstep cfg e (.sendRsp t true sendPiv)).2 = .sent (some e.snd.seq) (.own e.snd.seq) ∧
       (nstep cfg e (.sendRsp t true sendPiv)).1.snd.seq = e.snd.seq + 1) := by
-  obtain ⟨h1, h2⟩ := ownPiv_fresh e.snd h
-  simp only [nstep]
+  obtain ⟨h1, h2⟩ := ownPiv_fresh e.sys h
   cases ha : e.assocs t with
-  | none => left; rfl
+  | none => left; simp [nstep, respond, ha]
   | some a =>
-    simp only [Bool.true_or, if_true]
-    rcases h1 with h1 | h1
-    · left; simp [h1]
-    · right; simp [h1, h2]
+    cases hc : a.client with
+    | true => left; simp [nstep, respond, ha, hc]
+    | false =>
+      rcases h1 with h1 | h1
+      · left; simp [nstep, respond, ha, hc, h1]
+      · right; simp [nstep, respond, ha, hc, h1, Endp.snd, h2]
 
 /-- So is every response (with or without Observe option) to an Observe request: its association is kept, the nonce of
 the request could otherwise be used twice (fix 155f0b4). -/
@@ -309,13 +307,14 @@ theorem observe_response_fresh_piv (cfg : Cfg) (e : Endp) (t : Nat) (a : Assoc) 
     (nstep cfg e (.sendRsp t obsOpt sendPiv)).2 = .err ∨
     ((nstep cfg e (.sendRsp t obsOpt sendPiv)).2 = .sent (some e.snd.seq) (.own e.snd.seq) ∧
       (nstep cfg e (.sendRsp t obsOpt sendPiv)).1.snd.seq = e.snd.seq + 1) := by
-  obtain ⟨h1, h2⟩ := ownPiv_fresh e.snd h
-  simp only [nstep, ha, ho]
-  have hc : (obsOpt || (sendPiv || (true && !obsOpt))) = true := by cases obsOpt <;> cases sendPiv <;> rfl
-  simp only [hc, if_true]
-  rcases h1 with h1 | h1
-  · left; simp [h1]
-  · right; simp [h1, h2]
+  obtain ⟨h1, h2⟩ := ownPiv_fresh e.sys h
+  have hc : (obsOpt || (sendPiv || !obsOpt)) = true := by cases obsOpt <;> cases sendPiv <;> rfl
+  cases hcl : a.client with
+  | true => left; simp [nstep, respond, ha, hcl]
+  | false =>
+    rcases h1 with h1 | h1
+    · left; simp [nstep, respond, ha, ho, hcl, hc, h1]
+    · right; simp [nstep, respond, ha, ho, hcl, hc, h1, Endp.snd, h2]
 
 /-- A request that fails authentication changes no association: the nonce a response is protected with is never one
 an attacker chose (fix b3c6528). -/
@@ -326,7 +325,58 @@ theorem forged_request_no_association (cfg : Cfg) (e : Endp) (t : Nat) (ev : Ev)
     simp only [h]
     split <;> rfl
   have hacc : (recv cfg e.rcp ev).2 ≠ .acc := forged_never_accepted cfg e.rcp (.req ev) h
-  simp [nstep, hd, hacc]
+  have hch : (recv cfg e.rcp ev).2 ≠ .chal := by
+    intro hc
+    rw [recv_chal_decrypted hc] at hd
+    cases hd
+  simp [nstep, hd, hacc, hch]
+
+/-- **An association that belongs to a request sent from this end never protects a response** (fix bba9d79: the table is
+keyed by the token only and shared by both roles; the nonce it holds is the one that request was protected with). -/
+theorem client_association_never_responds (cfg : Cfg) (e : Endp) (t : Nat) (a : Assoc) (obsOpt sendPiv : Bool)
+    (ha : e.assocs t = some a) (hc : a.client = true) :
+    nstep cfg e (.sendRsp t obsOpt sendPiv) = (e, .err) := by
+  simp [nstep, respond, ha, hc]
+
+/-! ### Nonces over whole histories of the sender side
+
+`nrun cfg (Endp.start f start) ops`: every history of one endpoint that is client and server on one security context
+and one session — protected requests of the peer arrive (authentic or forged, any token, any Partial IV, with / without /
+with a wrong Echo value, Observe or not), the endpoint protects requests of its own (their tokens in the SAME table as
+those of the requests it received), responses without Partial IV, with `OSCORE_SEND_PARTIAL_IV`, notifications and the
+Appendix B.1.2 challenge, the save callback runs at the `ssn_freq` watermark (Appendix B.1.1), the process crashes
+anywhere and restarts from the value last handed to the callback (also with another `ssn_freq`).  Every message is
+protected with the Sender Key; `nonces` is the ghost log of the nonces handed to the AEAD. -/
+
+/-- **The Partial IVs used with the endpoint's own Sender ID are strictly increasing along every history** — requests,
+responses with their own Partial IV, notifications, Echo challenges; across save watermarks, crashes and restarts;
+whatever arrives, whatever the tokens, Appendix B.1.2 on or off: no (Sender Key, own nonce) pair is used twice. -/
+theorem own_piv_strictly_increasing (cfg : Cfg) (f start : Nat) (ops : List NOp) (hs : start ≤ SEQ_MAX + 2 ^ 32)
+    (hl : ops.length < 2 ^ 63) : (ownsOf (nonces (nrun cfg (Endp.start f start) ops))).Pairwise (· < ·) :=
+  (nrun_owns cfg ops _ [] 0 (ninv_start f start hs) (by omega)).2
+
+theorem own_nonce_never_reused (cfg : Cfg) (f start : Nat) (ops : List NOp) (hs : start ≤ SEQ_MAX + 2 ^ 32)
+    (hl : ops.length < 2 ^ 63) : (ownsOf (nonces (nrun cfg (Endp.start f start) ops))).Nodup :=
+  (own_piv_strictly_increasing cfg f start ops hs hl).imp (fun h => Nat.ne_of_lt h)
+
+/-- **A response is never protected with a nonce of the endpoint's own** other than the fresh one of its own Partial
+IV: every message that goes out without a Partial IV uses the nonce of a request of the PEER (`Nonce.ofReq`) — in every
+state reached by any history (fix bba9d79; before it an own request with the token of an unanswered received request
+handed its nonce to the response). -/
+theorem response_nonce_is_peers (cfg : Cfg) (f start : Nat) (ops : List NOp) (hs : start ≤ SEQ_MAX + 2 ^ 32)
+    (hl : ops.length < 2 ^ 63) (op : NOp) (n : Nonce)
+    (h : (nstep cfg (nfinal cfg (Endp.start f start) ops) op).2 = .sent none n) : ∃ q, n = .ofReq q := by
+  obtain ⟨U, g⟩ := nfinal_inv cfg ops _ [] 0 (ninv_start f start hs) (by omega)
+  exact sent_none_ofReq ⟨U, _, g, by omega⟩ op n h
+
+/- NOT proved (kept as the target; what is proved of it: the `own` half above, for all histories, and the step facts):
+  theorem nonce_never_reused (cfg) (f start) (ops : List NOp) (hs) (hl) (hb : cfg.b12 = false)
+      (hc : ∀ op ∈ ops, ∀ f', op ≠ .crash f') : (nonces (nrun cfg (Endp.start f start) ops)).Nodup
+The `ofReq` half needs the invariant "the associations that can protect a response hold pairwise different request
+nonces, each recorded in the replay window and not used yet" along `Good`.  It is FALSE without the two hypotheses:
+after a crash the replay window is fresh (with B.1.2 off the peer's old requests are accepted again — RFC 8613 7.5.1),
+and with B.1.2 on a request that is decrypted but then dropped for a wrong Echo value leaves its association behind
+(`w1.3 r1 e2.4 w1.3 r1`), see design/C15.md. -/
 
 /-! ### Non-vacuity: concrete histories (the minimal witnesses of the defects fixed in libcoap, see design/C15.md) -/
 
@@ -404,8 +454,25 @@ example : nonces (nrun ⟨32, false⟩ Endp.fresh [.reqIn 0 ⟨true, 5, .none⟩
     .sendRsp 0 false false, .reqIn 1 ⟨true, 7, .none⟩ false, .sendRsp 1 false false]) = [.ofReq 5, .ofReq 7] := by decide
 -- Observe registration, notification, two responses without Observe option, own request: all with the sequence number
 example : nrun ⟨32, false⟩ Endp.fresh [.reqIn 1 ⟨true, 1, .none⟩ true, .sendRsp 1 true false, .sendRsp 1 false false,
-    .sendRsp 1 false false, .sendReq, .sendRsp 2 false false] =
+    .sendRsp 1 false false, .sendReq 9 false false, .sendRsp 2 false false] =
     [.verdict .acc, .sent (some 0) (.own 0), .sent (some 1) (.own 1), .sent (some 2) (.own 2), .sent (some 3) (.own 3), .err] := by
   decide
+-- the token collision (defect 10): request 5 with token 1 arrives, the endpoint sends a request of its own with token 1,
+-- then answers: before fix bba9d79 the response went out under the nonce of the own request (`02.0` twice)
+example : nrun ⟨32, false⟩ Endp.fresh [.reqIn 1 ⟨true, 5, .none⟩ false, .sendReq 1 false false, .sendRsp 1 false false] =
+    [.verdict .acc, .sent (some 0) (.own 0), .err] := by decide
+-- Appendix B.1.2 + crash: challenge (own Partial IV 0, watermark 3), Echo request, response, crash (resume at 3), the
+-- challenge after the restart takes Partial IV 3
+example : nrun ⟨32, true⟩ (Endp.start 3 0) [.reqIn 1 ⟨true, 5, .none⟩ false, .reqIn 1 ⟨true, 6, .good⟩ false,
+    .sendRsp 1 false false, .crash 3, .reqIn 1 ⟨true, 7, .none⟩ false] =
+    [.chal (some 0), .verdict .acc, .sent none (.ofReq 6), .resumed 3, .chal (some 3)] := by decide
+
+-- own Partial IVs over a history with a token collision, an Echo challenge, a crash (hypotheses of
+-- own_piv_strictly_increasing / response_nonce_is_peers on a non-trivial instance)
+example : ownsOf (nonces (nrun ⟨32, true⟩ (Endp.start 3 0) [.reqIn 1 ⟨true, 5, .none⟩ false, .reqIn 1 ⟨true, 6, .good⟩ false,
+    .sendReq 1 false false, .sendRsp 1 false false, .crash 2, .reqIn 1 ⟨true, 7, .none⟩ false, .sendReq 2 true false])) = [0, 1, 3, 4] := by
+  decide
+example : (nstep ⟨32, false⟩ (nfinal ⟨32, false⟩ (Endp.start 3 0) [.reqIn 1 ⟨true, 5, .none⟩ false]) (.sendRsp 1 false false)).2
+    = .sent none (.ofReq 5) := by decide
 
 end Coap.C15
